@@ -111,14 +111,15 @@ func ruleS16(p *Prog, r *Report) {
 		}
 		n++
 		isRecord := func(z ssa.Instruction) bool {
-			fw, ok := p.fieldWriteOfX(z)
-			if !ok || !fw.Ref.is(storageT, "deltas") || fw.Kind != "mapupdate" {
-				return false
-			}
-			// under the id parameter
-			for _, q := range f.Params {
-				if typeName(q.Type()) == "SlabID" && sameValue(fw.Key, q) {
-					return true
+			for _, fw := range p.fieldWritesOfX(z) {
+				if !fw.Ref.is(storageT, "deltas") || fw.Kind != "mapupdate" {
+					continue
+				}
+				// under the id parameter
+				for _, q := range f.Params {
+					if typeName(q.Type()) == "SlabID" && sameValue(fw.Key, q) {
+						return true
+					}
 				}
 			}
 			return false
@@ -470,6 +471,11 @@ func ruleN9(p *Prog, r *Report) {
 			}
 			cl := closureOf(args[len(args)-1])
 			mc, _ := canon(args[len(args)-1]).(*ssa.MakeClosure)
+			if mc == nil {
+				if bc, ok := canon(args[len(args)-1]).(*ssa.Call); ok {
+					mc = builtClosure(bc) // the callback is built by a helper that returns it
+				}
+			}
 			if cl == nil || mc == nil {
 				return
 			}
